@@ -26,6 +26,12 @@ def units(tier):
     us += [Unit(A.Refused, {'sid': k}) for k in ('add_eltorito:load-size-too-big', 'add_eltorito:load-size-negative', 'add_eltorito:load-segment-too-big')]
     # whole images: an independent El Torito reader on the written image, for histories around add_eltorito / rm_eltorito, fresh and reopened
     from contracts import boot as B
+    import os
+    base = int(os.environ.get('VERIF_SEED', '0') or 0) * 1000 if tier != 'quick' else 0
+    for k in range(1, 5 if tier == 'quick' else 41):
+        # random histories around add_eltorito / rm_eltorito on random image flavours (concrete contents)
+        us.append(Unit(B.BootImage, {'history': 'random:%d' % (base + k)}))
+        us.append(Unit(B.BootImage, {'history': 'random:%d' % (base + k), 'reopen': True}))
     for h in sorted(B.HISTORIES):
         if h == 'floppy' and tier == 'quick':
             continue        # a 1.44 MB image: thorough tier only
@@ -53,7 +59,7 @@ META = {
         'reading the catalog / the patched boot file back through get_file_from_iso_fp (the image bytes are checked, not the read-back API)',
         'hdmbrcheck and the hard-disk emulation path of add_eltorito',
     ],
-    'bounded': ['11 El Torito histories x (fresh, reopened)'],
+    'bounded': ['11 El Torito histories + 4 random ones (thorough: 40) x (fresh, reopened)'],
 }
 
 MANIFEST = {
